@@ -8,7 +8,8 @@ import loops
 _CACHE = {}
 
 
-def program(ctx, config="default"):
+def program(ctx, config=None):
+    config = config or ctx.default_config
     k = (id(ctx), config)
     if k not in _CACHE:
         _CACHE[k] = Program(ctx.facts(config))
